@@ -71,8 +71,8 @@ impl Check for C11 {
     }
     fn budget(&self, tier: Tier) -> Budget {
         match tier {
-            Tier::Quick => Budget { wall_secs: 30, max_cases: 40_000, checkpoint_every: 128, workers: 16 },
-            Tier::Thorough => Budget { wall_secs: 300, max_cases: 4_000_000, checkpoint_every: 128, workers: 16 },
+            Tier::Quick => Budget { wall_secs: 40, max_cases: 400_000, checkpoint_every: 128, workers: 16 },
+            Tier::Thorough => Budget { wall_secs: 600, max_cases: 20_000_000, checkpoint_every: 128, workers: 16 },
         }
     }
     fn generate(&self, seed: u64, idx: u64, _tier: Tier) -> Value {
